@@ -10,13 +10,13 @@ ALL = ["C%02d" % i for i in range(1, 21)]
 META = {
     "C01": dict(
         technique="stateful property-based testing (rapidcheck): generated query histories over 1-3 live worlds; differential oracle = twin world answering stand-alone requests, list reversal/duplication, reverse replay of the history; bitwise comparison",
-        text="Generated worlds (all feature types, deterministic models, operations) and histories of batched 2D/3D requests; every block must be bit-identical to the stand-alone answer of a twin world, the announced size must be returned, and re-issuing the history backwards must reproduce every answer. Every case runs in a forked child and the reference answers come from a pristine process forked before the first case (no state can leak between worlds unnoticed); a sanitizer stage repeats the histories with the ASan+UBSan build.",
+        text="Generated worlds (all feature types, deterministic models, operations, point-wise depth surfaces) and histories of batched 2D/3D requests; every block must be bit-identical to the stand-alone answer of a twin world, the announced size must be returned, and re-issuing the history backwards must reproduce every answer. Every case runs in a forked child and the reference answers come from a pristine process forked before the first case (no state can leak between worlds unnoticed); a sanitizer stage repeats the histories with the ASan+UBSan build.",
         note="Random models excluded (C15). Trusted: the twin-world construction; rapidcheck's generators for reproducibility.",
         design="DESIGN.md section 4, C01"),
     "C02": dict(
-        technique="property-based testing (rapidcheck): metamorphic deletion/permutation of non-covering features (coverage decided by single-feature worlds) + reference fold of uniform models with operations",
-        text="Generated stacks of 2-7 overlapping features. (1) Deleting or moving features that do not contain the point must not change any value bitwise nor the tag string; (2) temperature/composition must equal background + in-order fold of the covering features' uniform models with replace / replace defined only / add / subtract and per-model depth ranges; (3) tag string of the last covering feature; grains and slab/fault velocity pass-through.",
-        note="Coverage is decided by the code itself on single-feature worlds. Two genuine defects are listed as known findings (slab/fault z-velocity seed, quaternion averaging of untouched grains).",
+        technique="property-based testing (rapidcheck): metamorphic deletion/permutation of non-covering features (coverage decided by single-feature worlds holding the feature's geometry with one indicator model) + reference fold of uniform models with operations (tian water content models: only the clearing of unlisted compositions by replace is folded) + tag of the last covering feature, features without any model included",
+        text="Generated stacks of 2-7 overlapping features. (1) Deleting or moving features that do not contain the point must not change any value bitwise nor the tag string; (2) temperature/composition must equal background + in-order fold of the covering features' uniform models with replace / replace defined only / add / subtract and per-model depth ranges; (3) tag string of the last covering feature, also when that feature has no models at all; grains and slab/fault velocity pass-through; tian water content models inside the stacks (the value they paint is tracked as unknown, the compositions they clear or leave alone are asserted).",
+        note="Coverage is decided by the code itself on single-feature worlds (geometry of the feature + one indicator model, so that a feature whose own models are absent or broken still counts as covering). Two genuine defects are listed as known findings (slab/fault z-velocity seed, quaternion averaging of untouched grains).",
         design="DESIGN.md section 4, C02"),
     "C03": dict(
         technique="property-based testing (rapidcheck): closed-form background oracle on points constructed outside every feature; forced-surface-temperature invariant over all batchings",
@@ -24,18 +24,18 @@ META = {
         note="Closed form evaluated in double; 'outside' by construction or by the code's own tag.",
         design="DESIGN.md section 4, C03"),
     "C04": dict(
-        technique="property-based testing (rapidcheck): exact integer point-in-polygon oracle on lattice polygons (boundary included), long-double oracle with ambiguity band off the lattice, plume ellipse/half-ellipsoid oracle written from the statement",
-        text="Single-feature worlds with an indicator composition and tag. Membership is asserted in both directions (inside => painted, outside => untouched) over all lattice and half-lattice points around generated simple polygons (convex/concave, both orientations, footprints written across and beyond +-180) and closed depth intervals incl. the end points and their floating-point neighbours; plumes against the interpolated ellipse with cyclic rotation-angle interpolation, head half-ellipsoid and continuation below the deepest section.",
+        technique="property-based testing (rapidcheck): exact integer point-in-polygon oracle on lattice polygons (boundary included), long-double oracle with ambiguity band off the lattice, closed-form local depth interval for point-wise min/max depth (tilted planes sampled at corners and interior points), plume ellipse/half-ellipsoid oracle written from the statement",
+        text="Single-feature worlds with an indicator composition and tag. Membership is asserted in both directions (inside => painted, outside => untouched) over all lattice and half-lattice points around generated simple polygons (convex/concave, both orientations, footprints written across and beyond +-180) and closed depth intervals incl. the end points and their floating-point neighbours; area features whose min and max depth are each absent / a number / a one-entry list / a tilted plane given at the corners (and interior points, in any order) probed 1 m .. 5 km to either side of the local top and bottom; plumes against the interpolated ellipse with cyclic rotation-angle interpolation, head half-ellipsoid and continuation below the deepest section.",
         note="Boundary points only where coordinates are exactly representable; elsewhere a 1e-9 band is skipped. Plume longitude aliases are left to C08.",
         design="DESIGN.md section 4, C04"),
     "C05": dict(
         technique="property-based testing (rapidcheck, one process per case): reference closed forms written from the parameter documentation (uniform, adiabatic, linear, Chapman, half-space erfc, converged plate-cooling Fourier series with a measured truncation allowance, Gaussian plume, slab/fault distance models, uniform grains/velocity)",
         text="Single-feature worlds with exactly one model under test, parameters over the documented domain incl. the 'negative means adiabatic/global' sentinels, model ranges wider/narrower/shifted against the feature range and add/subtract over the background; interior points by construction. The returned value must equal the documented expression (1e-10 .. 1e-8 relative); outside the model's own range the background must come back unchanged.",
-        note="Where the documentation is not specific (smooth composition shape, Euler convention, slab/fault sentinel depths) only the documented part is asserted. Ridge models: cartesian worlds with a ridge along x = const (2-4 points, constant or per-point spreading velocity) and spherical worlds with a ridge along the equator spanning up to 300 degrees written anywhere in [-360,360] (distance R|lat|, velocity linear in longitude). A sanitizer stage re-runs the generators with the ASan+UBSan build. Slab/fault distances from the planar construction validated by C06.",
+        note="Where the documentation is not specific (smooth composition shape, Euler convention, slab/fault sentinel depths) only the documented part is asserted. Ridge models: cartesian worlds with a ridge along x = const (2-4 points, constant or per-point spreading velocity) or a kinked ridge polyline of 3-5 points (closest point of the whole polyline, velocity interpolated there) and spherical worlds with a ridge along the equator spanning up to 300 degrees written anywhere in [-360,360] (distance R|lat|, velocity linear in longitude). A sanitizer stage re-runs the generators with the ASan+UBSan build. Slab/fault distances from the planar construction validated by C06.",
         design="DESIGN.md section 4, C05"),
     "C06": dict(
         technique="property-based testing (rapidcheck, one process per case): independent planar reference construction (straight lines and circular arcs in the plane perpendicular to the trench) compared with World::distance_to_plane and with membership via the tag",
-        text="Slabs and faults on straight cartesian trenches of any position/azimuth/length and dip side, 1-4 segments (dips 5-175 degrees, arcs and kinks), thickness and top-truncation pairs, min depth up to 300 km; points generated in slab coordinates (on, just off and far from the surface, beyond the tip and the trench ends). Both reported distances must equal the construction to 1 mm + 1e-9 scale (+ the Newton foot tolerance for points vertically below the trench line) and membership must follow the statement's rule. Spherical: trenches along a meridian or the equator (three radii, three depth methods), points in the perpendicular vertical plane, same construction with the radius-scaled allowance 4 d^2/R applied to the point's position.",
+        text="Slabs and faults on straight cartesian trenches of any position/azimuth/length and dip side, 1-4 segments (dips 5-175 degrees, arcs and kinks), thickness and top-truncation pairs (written as pairs, as single values, or left out where zero), min depth up to 300 km, 12% of the worlds in units of 1000 km with the dip point 0.4-0.7 units from the trench; points generated in slab coordinates (on, just off and far from the surface, beyond the tip and the trench ends). Both reported distances must equal the construction to 1 mm + 1e-9 scale (+ the Newton foot tolerance for points vertically below the trench line) and membership must follow the statement's rule. Spherical: trenches along a meridian or the equator (three radii, three depth methods), points in the perpendicular vertical plane, same construction with the radius-scaled allowance 4 d^2/R applied to the point's position.",
         note="The spherical allowance (a few per cent of the slab's extent) only exposes errors of the order of the extent itself (side, axis, unit, radius), not the depth-method corrections, which are of the order of the allowance; feet within 0.1% of a trench end, 1 mm of a segment end or ties within 1 m are skipped. Exactly collinear intermediate coordinates are a listed finding (kept at 10% of the cases).",
         design="DESIGN.md section 4, C06"),
     "C07": dict(
@@ -44,8 +44,8 @@ META = {
         note="The hook replaces bounding box and length cut-off by infinite bounds at parse time; area-feature min/max pre-tests are covered through the surface lookup and by C11's bisection probe.",
         design="DESIGN.md section 4, C07"),
     "C10": dict(
-        technique="metamorphic property-based testing (rapidcheck, one process per case): re-layout of the same feature (inherited models pushed down, default segments repeated as explicit sections), locality of a section override, convexity/own-value checks on uniform section values and on thickness/top truncation via membership",
-        text="Slabs and faults with 2-5 coordinates, 1-3 segments and uniform temperature/composition/grains/velocity models at feature, section and segment level in random combinations. Re-layouts must not change any answer; values beside the trench must lie in the hull of the adjacent sections and equal a section's own value at its coordinate; changing one section must not change answers beyond its neighbours; membership must follow each section's own thickness/top truncation beside its coordinate and a convex combination in between.",
+        technique="metamorphic property-based testing (rapidcheck, one process per case): re-layout of the same feature (inherited models pushed down, default segments repeated as explicit sections), locality of a section override, convexity/own-value checks on uniform section values and on thickness / top truncation / segment lengths via membership and per-segment temperatures",
+        text="Slabs and faults with 2-5 coordinates, 1-3 segments and uniform temperature/composition/grains/velocity models at feature, section and segment level in random combinations. Re-layouts must not change any answer; values beside the trench must lie in the hull of the adjacent sections and equal a section's own value at its coordinate; changing one section must not change answers beyond its neighbours; membership must follow each section's own thickness/top truncation beside its coordinate and a convex combination in between; segment lengths that differ between two sections (zero included) must put the slab end and every segment boundary inside the hull of the two sections (beside a coordinate: at the section's own).",
         note="Trenches bend by at most 25 degrees, moderate latitudes; probes 2-30 km beside the trench.",
         design="DESIGN.md section 4, C10"),
     "C11": dict(
@@ -65,12 +65,12 @@ META = {
         design="DESIGN.md section 4, C17"),
     "C18": dict(
         technique="property-based testing (rapidcheck) of the gwb-grid executable: generated world + grid file, VTU reader, reference lattice per grid type, library values at the lattice nodes, recomputation of the filtered / by-tag cell sets",
-        text="Cartesian and chunk grids in 2D/3D, annulus, sphere; bounds, cell counts, compositions, -j, --filtered/--by-tag, every vtu_output_format (ASCII, Base64Inline, Base64Appended, RawBinary, RawBinaryCompressed, absent) read by an independent VTK-XML reader (base64, appended offsets, zlib blocks). Well-formed mesh, node multiset equals the requested lattice, cell count, Depth, every node value equals the library's answer, filtered/by-tag files contain exactly the selected cells with unchanged node values.",
+        text="Cartesian and chunk grids in 2D/3D, annulus, sphere; bounds, cell counts, compositions, -j, --filtered/--by-tag, grid files re-styled (line order, comment lines, zero-padded counts, bounds in exponent notation, trailing commas), every vtu_output_format (ASCII, Base64Inline, Base64Appended, RawBinary, RawBinaryCompressed, absent) read by an independent VTK-XML reader (base64, appended offsets, zlib blocks). Well-formed mesh, node multiset equals the requested lattice, cell count, Depth, every node value equals the library's answer, filtered/by-tag files contain exactly the selected cells with unchanged node values.",
         note="ASCII output (6 digits): 2e-5 relative tolerance, boundary-ambiguous nodes skipped. Sphere grids: the block mapping is not re-derived; asserted are the counts of a closed shell mesh (12 nx^2 nz cells, (12 nx^2+2)(nz+1) nodes), equally spaced radii, every cell between two consecutive shells and a solid angle of 4 pi per layer.",
         design="DESIGN.md section 4, C18"),
     "C20": dict(
         technique="property-based testing (rapidcheck, one process per case): envelope, monotonicity (paired probes) and boundary-value invariants on cooling models",
-        text="Oceanic half-space / plate / constant-age / linear models with ordered end members: value inside [top, bottom], rising with depth, falling with age, boundary temperatures attained; slab mass-conserving and plate models between the surface temperature and the background adiabat wherever they change the temperature.",
+        text="Oceanic half-space / plate / constant-age / linear models with ordered end members: value inside [top, bottom], rising with depth, falling with age (straight ridges: with the distance from the ridge line; any ridge polyline: with the distance to its closest point), boundary temperatures attained; slab mass-conserving and plate models between the surface temperature and the background adiabat wherever they change the temperature.",
         note="Gibbs allowance for the 100-term series near the surface; boundary values asserted for min depth 0 / constant max depth only; 35% of the oceanic plates have a point-wise thickness (envelope, depth and age order only).",
         design="DESIGN.md section 4, C20"),
     "C08": dict(
